@@ -59,13 +59,17 @@ def run_one(m, args):
         vdir = os.path.join(tmp, "verif")
         os.makedirs(os.path.join(vdir, "evidence"))
         shutil.copy(os.path.join(VERIF, "known_findings.json"), vdir)
+        tests_catch = ""
         if args.validate:
             r = subprocess.run(["go", "build", "./..."], cwd=root, env=ENV, capture_output=True, text=True)
             if r.returncode != 0:
                 return (m, "invalid", "does not build: " + r.stderr[-400:])
             r = subprocess.run(["go", "test", "-vet=off", "-count=1", "-timeout", "180s", "./..."], cwd=root, env=ENV, capture_output=True, text=True)
             if r.returncode != 0:
-                return (m, "invalid", "test suite fails: " + r.stdout[-600:])
+                fails = [l for l in r.stdout.splitlines() if l.startswith("--- FAIL") or l.startswith("FAIL\t")]
+                if m["kind"] == "neutral":
+                    return (m, "invalid", "test suite fails: " + " ".join(fails)[-400:])
+                tests_catch = " (the test suite also catches it: " + " ".join(fails)[:200] + ")"
         props = m["props"] if "props" in m else [m["prop"]]
         res = []
         for prop in props:
@@ -80,7 +84,7 @@ def run_one(m, args):
             exp = m.get("expect", "")
             if exp and exp not in out:
                 return (m, "WRONGKEY", "expected %r in report\n%s" % (exp, out[-1200:]))
-            return (m, "caught", "")
+            return (m, "caught" + ("*" if tests_catch else ""), tests_catch)
         else:
             bad = [(p, rc, out) for (p, rc, out) in res if rc != 0]
             if bad:
@@ -105,7 +109,7 @@ def main():
     with cf.ThreadPoolExecutor(max_workers=args.jobs) as ex:
         for m, status, detail in ex.map(lambda m: run_one(m, args), ms):
             results.append({"id": m["id"], "kind": m["kind"], "status": status, "detail": detail})
-            print("%-10s %-8s %s" % (status, m["kind"], m["id"]))
+            print("%-10s %-8s %s%s" % (status, m["kind"], m["id"], detail if status == "caught*" else ""))
             if status in ("MISSED", "WRONGKEY", "FALSEALARM", "invalid"):
                 print("    " + detail.replace("\n", "\n    "))
     if args.json:
